@@ -17,7 +17,8 @@ Inductive exp :=
 | Shl (w : nat) (a : exp) (k : nat)    (* (a << k) mod 2^w *)
 | Shr (a : exp) (k : nat)
 | Trunc (w : nat) (a : exp)            (* conversion to a w-bit unsigned type *)
-| Tab (t : nat) (a : exp).             (* tables[t][a] *)
+| Tab (t : nat) (a : exp)              (* tables[t][a] *)
+| Sub (w : nat) (a b : exp).           (* (a - b) mod 2^w, unsigned *)
 
 Definition stmt := (nat * exp)%type.    (* variable := expression *)
 Definition prog := list stmt.
@@ -37,6 +38,7 @@ Section Sem.
     | Shr a k => N.shiftr (eval env a) (N.of_nat k)
     | Trunc w a => N.land (eval env a) (N.ones (N.of_nat w))
     | Tab t a => nth (N.to_nat (eval env a)) (nth t tabs []) 0
+    | Sub w a b => (eval env a + 2 ^ N.of_nat w - (eval env b) mod 2 ^ N.of_nat w) mod 2 ^ N.of_nat w
     end.
 
   Fixpoint set_nth {A : Type} (d : A) (i : nat) (x : A) (l : list A) : list A :=
@@ -62,6 +64,34 @@ Proof.
   - destruct l; destruct j; cbn [set_nth nth Nat.eqb]; try reflexivity.
     + rewrite IHi, nth_nil_d. reflexivity.
     + apply IHi.
+Qed.
+
+(* words from bit lists (least significant bit first) *)
+Fixpoint N_of_bits (l : list bool) : N :=
+  match l with [] => 0 | b :: r => N.b2n b + 2 * N_of_bits r end.
+
+Lemma testbit_N_of_bits : forall l i, N.testbit (N_of_bits l) (N.of_nat i) = nth i l false.
+Proof.
+  induction l as [|b l IH]; intros i; cbn [N_of_bits].
+  - rewrite N.bits_0. destruct i; reflexivity.
+  - rewrite N.add_comm. destruct i.
+    + apply N.testbit_0_r.
+    + rewrite Nat2N.inj_succ, N.testbit_succ_r. apply IH.
+Qed.
+
+Lemma N_of_bits_inj_bits : forall n l, (forall i, N.testbit n (N.of_nat i) = nth i l false) -> n = N_of_bits l.
+Proof.
+  intros n l H. apply N.bits_inj. intro j. rewrite <- (N2Nat.id j), H, testbit_N_of_bits. reflexivity.
+Qed.
+
+
+Lemma N_of_bits_pad : forall l n, N_of_bits (l ++ repeat false n) = N_of_bits l.
+Proof.
+  intros l n. apply N_of_bits_inj_bits. intro i. rewrite testbit_N_of_bits.
+  destruct (Nat.ltb_spec i (length l)).
+  - rewrite app_nth1 by lia. reflexivity.
+  - rewrite app_nth2 by lia. rewrite (nth_overflow l) by lia.
+    destruct (Nat.ltb_spec (i - length l) n); [apply nth_repeat|apply nth_overflow; rewrite repeat_length; lia].
 Qed.
 
 (* ===================================================================== *)
@@ -137,6 +167,26 @@ Definition atab (tbl : list N) (idx : aword) : option aword :=
               (seq 0 64))
   else None.
 
+(* a - b for the one idiom of the sources ("b -= b >> 7" with only the top bit of every byte set in b):
+   in every byte lane a has at most bit 7, b at most bit 0, and b's bit 0 is a's bit 7; then
+   a - b has that bit in positions 0..6 of the lane.  nl = number of byte lanes (4 or 8). *)
+Fixpoint list_nat_eqb (a b : list nat) : bool :=
+  match a, b with
+  | [], [] => true
+  | x :: a', y :: b' => Nat.eqb x y && list_nat_eqb a' b'
+  | _, _ => false
+  end.
+Definition abit_eqb (a b : abit) : bool := Bool.eqb (fst a) (fst b) && list_nat_eqb (snd a) (snd b).
+Definition top_pos (nl i : nat) : bool := Nat.ltb i (8 * nl) && Nat.eqb (i mod 8) 7.
+Definition low_pos (nl i : nat) : bool := Nat.ltb i (8 * nl) && Nat.eqb (i mod 8) 0.
+Definition asub_ok (nl : nat) (a b : aword) : bool :=
+  Nat.leb (length a) 64 && Nat.leb (length b) 64 &&
+  forallb (fun i => (if top_pos nl i then true else is_zero (nth i a azero)) &&
+                    (if low_pos nl i then abit_eqb (nth i b azero) (nth (i + 7) a azero) else is_zero (nth i b azero)))
+          (seq 0 64).
+Definition asub_res (nl : nat) (a : aword) : aword :=
+  map (fun i => if Nat.ltb i (8 * nl) && negb (Nat.eqb (i mod 8) 7) then nth (8 * (i / 8) + 7) a azero else azero) (seq 0 64).
+
 Section ASem.
   Variable tabs : list (list N).
 
@@ -154,6 +204,10 @@ Section ASem.
     | Shr a k => option_map (skipn k) (aeval aenv a)
     | Trunc w a => option_map (firstn w) (aeval aenv a)
     | Tab t a => match aeval aenv a with Some x => atab (nth t tabs []) x | None => None end
+    | Sub w a b => match aeval aenv a, aeval aenv b with
+                   | Some x, Some y =>
+                     if (Nat.eqb w 32 || Nat.eqb w 64) && asub_ok (w / 8) x y then Some (asub_res (w / 8) x) else None
+                   | _, _ => None end
     end.
 
   Definition astep (aenv : option (list aword)) (s : stmt) : option (list aword) :=
@@ -351,6 +405,90 @@ Section Sound.
       rewrite forallb_forall in Hbnd. apply N.ltb_lt. apply Hbnd. apply nth_In. lia.
   Qed.
 
+  (* ---------- the subtraction idiom ---------- *)
+  Definition patA (ds : list bool) : list bool := flat_map (fun d => [false;false;false;false;false;false;false;d]) ds.
+  Definition patB (ds : list bool) : list bool := flat_map (fun d => [d;false;false;false;false;false;false;false]) ds.
+  Definition patR (ds : list bool) : list bool := flat_map (fun d => [d;d;d;d;d;d;d;false]) ds.
+  Lemma pat_arith : forall ds, (length ds = 4 \/ length ds = 8)%nat ->
+    let w := N.of_nat (8 * length ds) in
+    (N_of_bits (patA ds) + 2 ^ w - N_of_bits (patB ds) mod 2 ^ w) mod 2 ^ w = N_of_bits (patR ds).
+  Proof.
+    intros ds [H|H].
+    - do 4 (destruct ds as [|? ds]; [discriminate H|]). destruct ds; [|discriminate H].
+      repeat match goal with b : bool |- _ => destruct b end; vm_compute; reflexivity.
+    - do 8 (destruct ds as [|? ds]; [discriminate H|]). destruct ds; [|discriminate H].
+      repeat match goal with b : bool |- _ => destruct b end; vm_compute; reflexivity.
+  Qed.
+
+  Definition gA (nl : nat) (g : nat -> bool) : list bool := map (fun i => if top_pos nl i then g i else false) (seq 0 64).
+  Definition gB (nl : nat) (g : nat -> bool) : list bool := map (fun i => if low_pos nl i then g (i + 7)%nat else false) (seq 0 64).
+  Definition gR (nl : nat) (g : nat -> bool) : list bool :=
+    map (fun i => if Nat.ltb i (8 * nl) && negb (Nat.eqb (i mod 8) 7) then g (8 * (i / 8) + 7)%nat else false) (seq 0 64).
+  Definition tops (nl : nat) (g : nat -> bool) : list bool := map (fun k => g (8 * k + 7)%nat) (seq 0 nl).
+
+  Lemma g_pats : forall nl g, (nl = 4 \/ nl = 8)%nat ->
+    gA nl g = patA (tops nl g) ++ repeat false (64 - 8 * nl) /\
+    gB nl g = patB (tops nl g) ++ repeat false (64 - 8 * nl) /\
+    gR nl g = patR (tops nl g) ++ repeat false (64 - 8 * nl).
+  Proof. intros nl g [-> | ->]; repeat split; vm_compute; reflexivity. Qed.
+
+  Lemma g_arith : forall nl g, (nl = 4 \/ nl = 8)%nat ->
+    let w := N.of_nat (8 * nl) in
+    (N_of_bits (gA nl g) + 2 ^ w - N_of_bits (gB nl g) mod 2 ^ w) mod 2 ^ w = N_of_bits (gR nl g).
+  Proof.
+    intros nl g H. destruct (g_pats nl g H) as (EA & EB & ER). rewrite EA, EB, ER, !N_of_bits_pad.
+    assert (Hl : length (tops nl g) = nl) by (unfold tops; rewrite map_length, seq_length; reflexivity).
+    pose proof (pat_arith (tops nl g)) as P. rewrite Hl in P. apply P. destruct H; [left|right]; assumption.
+  Qed.
+
+  Lemma abit_eqb_eq : forall a b, abit_eqb a b = true -> a = b.
+  Proof.
+    intros [ca sa] [cb sb] H. unfold abit_eqb in H. cbn [fst snd] in H. apply andb_prop in H. destruct H as [H1 H2].
+    apply Bool.eqb_prop in H1. subst cb. f_equal.
+    revert sb H2. induction sa as [|i r IH]; destruct sb as [|j t]; cbn; intros H; try discriminate; auto.
+    apply andb_prop in H. destruct H as [Ha Hb]. apply Nat.eqb_eq in Ha. subst. f_equal. auto.
+  Qed.
+  Lemma is_zero_den : forall a, is_zero a = true -> den a = false.
+  Proof. intros [[|] [|? ?]] H; try discriminate. reflexivity. Qed.
+
+  Lemma nth_map_seq64 : forall (f : nat -> bool) i, nth i (map f (seq 0 64)) false = if Nat.ltb i 64 then f i else false.
+  Proof.
+    intros f i. destruct (Nat.ltb_spec i 64).
+    - rewrite nth_indep with (d' := f 0%nat) by (rewrite map_length, seq_length; lia).
+      rewrite (map_nth f (seq 0 64) 0%nat i), seq_nth by lia. reflexivity.
+    - apply nth_overflow. rewrite map_length, seq_length. lia.
+  Qed.
+
+  Lemma rel_asub : forall nl aw bw A B, (nl = 4 \/ nl = 8)%nat -> asub_ok nl aw bw = true -> rel aw A -> rel bw B ->
+    rel (asub_res nl aw) ((A + 2 ^ N.of_nat (8 * nl) - B mod 2 ^ N.of_nat (8 * nl)) mod 2 ^ N.of_nat (8 * nl)).
+  Proof.
+    intros nl aw bw A B Hnl Hok HA HB. unfold asub_ok in Hok.
+    apply andb_prop in Hok. destruct Hok as [Hok Hf]. apply andb_prop in Hok. destruct Hok as [La Lb].
+    apply Nat.leb_le in La. apply Nat.leb_le in Lb. rewrite forallb_forall in Hf.
+    set (g := fun i => den (nth i aw azero)).
+    assert (EA : A = N_of_bits (gA nl g)).
+    { apply N_of_bits_inj_bits. intro i. rewrite HA. unfold gA. rewrite nth_map_seq64.
+      destruct (Nat.ltb_spec i 64) as [Hi|Hi].
+      - specialize (Hf i ltac:(apply in_seq; lia)). apply andb_prop in Hf. destruct Hf as [Hf _].
+        destruct (top_pos nl i); [reflexivity|]. apply is_zero_den. exact Hf.
+      - rewrite nth_overflow by lia. reflexivity. }
+    assert (EB : B = N_of_bits (gB nl g)).
+    { apply N_of_bits_inj_bits. intro i. rewrite HB. unfold gB. rewrite nth_map_seq64.
+      destruct (Nat.ltb_spec i 64) as [Hi|Hi].
+      - specialize (Hf i ltac:(apply in_seq; lia)). apply andb_prop in Hf. destruct Hf as [_ Hf].
+        destruct (low_pos nl i).
+        + apply abit_eqb_eq in Hf. rewrite Hf. reflexivity.
+        + apply is_zero_den. exact Hf.
+      - rewrite nth_overflow by lia. reflexivity. }
+    rewrite EA, EB, (g_arith nl g Hnl). intro i. rewrite testbit_N_of_bits. unfold gR, asub_res.
+    rewrite nth_map_seq64. destruct (Nat.ltb_spec i 64) as [Hi|Hi].
+    - set (F := fun i : nat => if Nat.ltb i (8 * nl) && negb (Nat.eqb (i mod 8) 7) then nth (8 * (i / 8) + 7) aw azero else azero).
+      rewrite (nth_indep (map F (seq 0 64)) azero (F 0%nat)) by (rewrite map_length, seq_length; lia).
+      rewrite (map_nth F (seq 0 64) 0%nat i), seq_nth by lia. cbn [Nat.add]. unfold F.
+      destruct (Nat.ltb i (8 * nl) && negb (Nat.eqb (i mod 8) 7)); reflexivity.
+    - rewrite nth_overflow by (rewrite map_length, seq_length; lia). reflexivity.
+  Qed.
+
   (* ---------- expressions ---------- *)
   Variable tabs : list (list N).
 
@@ -403,6 +541,13 @@ Section Sound.
       destruct (Nat.ltb i w); [apply andb_true_r|apply andb_false_r].
     - destruct (aeval tabs aenv e) as [x1|]; [|discriminate].
       apply (rel_atab _ _ _ _ H). apply IHe; [assumption|reflexivity].
+    - destruct (aeval tabs aenv e1) as [x1|]; [|discriminate]. destruct (aeval tabs aenv e2) as [x2|]; [|discriminate].
+      destruct ((Nat.eqb w 32 || Nat.eqb w 64) && asub_ok (w / 8) x1 x2) eqn:Hc; [|discriminate]. injection H as <-.
+      apply andb_prop in Hc. destruct Hc as [Hw Hok]. apply orb_prop in Hw.
+      specialize (IHe1 _ Henv eq_refl). specialize (IHe2 _ Henv eq_refl).
+      destruct Hw as [Hw|Hw]; apply Nat.eqb_eq in Hw; subst w.
+      + exact (rel_asub 4 x1 x2 _ _ (or_introl eq_refl) Hok IHe1 IHe2).
+      + exact (rel_asub 8 x1 x2 _ _ (or_intror eq_refl) Hok IHe1 IHe2).
   Qed.
 
   Theorem arun_sound : forall p aenv env aenv', rel_env aenv env -> arun tabs aenv p = Some aenv' ->
@@ -422,23 +567,6 @@ End Sound.
 
 (* ===================================================================== *)
 (* interface: inputs given as bit lists (least significant bit first) *)
-Fixpoint N_of_bits (l : list bool) : N :=
-  match l with [] => 0 | b :: r => N.b2n b + 2 * N_of_bits r end.
-
-Lemma testbit_N_of_bits : forall l i, N.testbit (N_of_bits l) (N.of_nat i) = nth i l false.
-Proof.
-  induction l as [|b l IH]; intros i; cbn [N_of_bits].
-  - rewrite N.bits_0. destruct i; reflexivity.
-  - rewrite N.add_comm. destruct i.
-    + apply N.testbit_0_r.
-    + rewrite Nat2N.inj_succ, N.testbit_succ_r. apply IH.
-Qed.
-
-Lemma N_of_bits_inj_bits : forall n l, (forall i, N.testbit n (N.of_nat i) = nth i l false) -> n = N_of_bits l.
-Proof.
-  intros n l H. apply N.bits_inj. intro j. rewrite <- (N2Nat.id j), H, testbit_N_of_bits. reflexivity.
-Qed.
-
 (* input bit s = bit (s mod 64) of input variable (s / 64) *)
 Definition bitsrc (bl : list (list bool)) (s : nat) : bool := nth (s mod 64) (nth (s / 64) bl []) false.
 Definition input_bits (v w : nat) : aword := map (fun j => (false, [64 * v + j]%nat)) (seq 0 w).
@@ -503,11 +631,3 @@ Proof.
   apply Nat.leb_le, Hle. apply in_map. exact Hl.
 Qed.
 
-Lemma N_of_bits_pad : forall l n, N_of_bits (l ++ repeat false n) = N_of_bits l.
-Proof.
-  intros l n. apply N_of_bits_inj_bits. intro i. rewrite testbit_N_of_bits.
-  destruct (Nat.ltb_spec i (length l)).
-  - rewrite app_nth1 by lia. reflexivity.
-  - rewrite app_nth2 by lia. rewrite (nth_overflow l) by lia.
-    destruct (Nat.ltb_spec (i - length l) n); [apply nth_repeat|apply nth_overflow; rewrite repeat_length; lia].
-Qed.
